@@ -23,10 +23,13 @@ EXPLANATION = (
     "in list order, which replace_group_leader keeps, never in the insertion order of `content`, which it "
     "changes); R-edits-serialised (effect analysis: every attribute an edit changes is written by "
     "to_json from self.<attr>, or rebuilt by the loader); R-single-table (summary and transform read the "
-    "per-feature features_dropna flag that a missing-value edit sets, not the constructor's dropna)."
+    "per-feature features_dropna flag that a missing-value edit sets, not the constructor's dropna); "
+    "R-comutation (the GroupedList edit helpers keep list and content in step: no member is lost by group / "
+    "replace_group_leader); R-default-formula (transform decides 'unknown value' against the live "
+    "self.values_orders[feature], the object edits change, not a table filled at fit)."
 )
 NOT_DECIDED = "agreement of transform/summary/JSON after arbitrary edit sequences on data"
-FLOORS = {"R-numeric-only-call": 4, "R-labels-refreshed": 2, "R-mode-first": 1, "R-edit-semantics": 4, "R-append-absent": 2, "R-label-alignment": 2, "R-edits-serialised": 3, "R-single-table": 2}
+FLOORS = {"R-numeric-only-call": 4, "R-labels-refreshed": 2, "R-mode-first": 1, "R-edit-semantics": 4, "R-append-absent": 2, "R-label-alignment": 2, "R-edits-serialised": 3, "R-single-table": 2, "R-comutation": 6, "R-default-formula": 2}
 
 NUMERIC_ONLY = {"isnan", "isfinite", "isinf", "isneginf", "isposinf"}
 
@@ -185,6 +188,11 @@ def check(ctx):
     rule_numeric_only(ctx)
     rule_update(ctx)
     check_append_absent(ctx, "R-append-absent", select=lambda fi: fi.qualname == "BaseDiscretizer.update_discretizer")
+    from . import c05
+    from .grouped import check_comutation
+
+    check_comutation(ctx, "R-comutation")
+    c05.rule_default_formula(ctx)
 
 
 _REFRESH = "            # updating Carver values_orders and labels_per_values\n            self.values_orders.update({feature: order})\n            self.labels_per_values = self._get_labels_per_values(self.output_dtype)\n"
@@ -196,6 +204,8 @@ MUTANTS = [
     M("D24-reverted: labels paired with the raw list order although str_nan is labelled last", [(F_BASE, "            for group_of_values, label in zip(groups, labels):", "            for group_of_values, label in zip(values, labels):")], "R-label-alignment", quick=True),
     M("features_dropna not serialised", [(F_BASE, "            \"features_dropna\": self.features_dropna,\n", "")], "R-edits-serialised", "features_dropna"),
     M("D25-reverted: summary reads the global dropna", [(F_BASE, "                if not (not self.features_dropna[feature] and value == self.str_nan):", "                if not (not self.dropna and value == self.str_nan):")], "R-single-table", "features_dropna"),
+    M("a renamed group loses its former leader", [("AutoCarver/discretizers/utils/grouped_list.py", "            self.content.update({group_member: self.content[group_leader][:]})", "            self.content.update({group_member: [v for v in self.content[group_leader] if v != group_leader]})")], "R-comutation", "replace_group_leader"),
+    M("known values cached at fit, not refreshed by edits", [(F_BASE, "                    if val not in self.values_orders[feature].values()\n", "                    if val not in self._known_at_fit[feature]\n")], "R-default-formula", "str_default iff"),
     M("labels not refreshed", [(F_BASE, "            self.labels_per_values = self._get_labels_per_values(self.output_dtype)\n\n\ndef transform_quantitative_feature", "\n\ndef transform_quantitative_feature")], "R-labels-refreshed", quick=True),
     M("labels refreshed for mode group only", [(F_BASE, _REFRESH, "            # updating Carver values_orders and labels_per_values\n            self.values_orders.update({feature: order})\n            if mode == 'group':\n                self.labels_per_values = self._get_labels_per_values(self.output_dtype)\n")], "R-labels-refreshed"),
     M("labels refreshed with the wrong dtype", [(F_BASE, "            self.labels_per_values = self._get_labels_per_values(self.output_dtype)\n\n\ndef transform_quantitative_feature", "            self.labels_per_values = self._get_labels_per_values('str')\n\n\ndef transform_quantitative_feature")], "R-labels-refreshed"),
